@@ -130,6 +130,52 @@ func runC14(t *testing.T, cases []map[string]interface{}, ev *vEvents) {
 				emit(map[string]interface{}{"ev": "Otp", "trace": ci, "right": right, "accepted": accepted, "status": r.Status})
 			}
 			w.Close()
+		case "otp_phase":
+			// sub-second resolution of the pacing rule: the previous evaluation lies gapMs back, the new attempt arrives at
+			// a chosen phase of the wall-clock second (an implementation that compares whole seconds errs at some phases)
+			w := newWorld(vWorldOpts{CertCfg: []string{"password"}, WebUICfg: []string{"password"}})
+			w.st.Config.Base.EnableLocalTOTP = true
+			w.armTOTP("alice")
+			ck := map[string]string{authCookieName: w.mintCookie("alice", AuthTypePassword, 0)}
+			emit(map[string]interface{}{"ev": "Reset", "trace": ci})
+			probes, _ := c["probes"].([]interface{})
+			for _, pr := range probes {
+				a := pr.(map[string]interface{})
+				gap := time.Duration(vInt(a, "gapMs")) * time.Millisecond
+				phase := vInt(a, "phaseMs")
+				for {
+					f := time.Now().Nanosecond() / 1000000
+					if f >= phase && f < phase+25 {
+						break
+					}
+					time.Sleep(time.Millisecond)
+				}
+				now := time.Now()
+				w.st.totpLocalTateLimitMutex.Lock()
+				w.st.totpLocalRateLimit["alice"] = totpRateLimitInfo{lastCheckTime: now.Add(-gap)}
+				w.st.totpLocalTateLimitMutex.Unlock()
+				right := vBool(a, "right")
+				code, _ := totp.GenerateCode(vTOTPSecret, now)
+				if !right {
+					code = fmt.Sprintf("%06d", (vAtoi(code)+1)%1000000)
+				}
+				r := w.Do(vReq{Method: "POST", Path: totpAuthPath, Cookies: ck, Form: url.Values{"OTP": {code}}})
+				tookMs := int(time.Since(now) / time.Millisecond)
+				w.st.totpLocalTateLimitMutex.Lock()
+				e := w.st.totpLocalRateLimit["alice"]
+				w.st.totpLocalTateLimitMutex.Unlock()
+				evaluated := !e.lastCheckTime.Before(now)
+				accepted := r.Status == 200
+				if accepted {
+					p, _, _, err := w.st.LoadUserProfile("alice")
+					vMust(err)
+					p.LastSuccessfullTOTPCounter -= 3
+					vMust(w.st.SaveUserProfile("alice", p))
+				}
+				emit(map[string]interface{}{"ev": "OtpPhase", "trace": ci, "gapMs": vInt(a, "gapMs"), "phaseMs": phase, "right": right,
+					"accepted": accepted, "evaluated": evaluated, "failCount": int(e.failCount), "tookMs": tookMs, "status": r.Status})
+			}
+			w.Close()
 		case "otp_parallel":
 			// the same moment: N requests carrying the current code of one user (storage reads slowed down so that the
 			// requests overlap inside the handler); at most one of them may be evaluated, hence at most one accepted
